@@ -4,7 +4,7 @@ PROP = dict(
     id="C06",
     corr=["Model/FsmCorr.vo", "Model/CrashCorr.vo", "Model/C06Corr.vo"],
     design_ref="DESIGN.md §6 C06",
-    technique="Coq: reflective check of the generated taker tables (the states reachable from the success edge of every paying state form a closed zone that only claims with the preimage), proved sound for arbitrary tables; engine rule for the zone, own induction for the paying step; lifted to all histories with crashes; refutation witnesses for the known findings; step-level vm_compute correspondence against the real SwapService incl. simulated process crashes; monitor on observed traces",
+    technique="Coq: reflective check of the generated taker tables (the states reachable from the success edge of every paying state form a closed zone that only claims with the preimage), proved sound for arbitrary tables; engine rule for the zone, own induction for the paying step; lifted to all histories with crashes; refutation witnesses for the known findings; step-level vm_compute correspondence against the real SwapService incl. simulated process crashes; monitor on observed traces; plus, on the real lnd adapter: RebalancePayment over scripted payment-update streams (psh paystream, Model/C06PayStream.v; theorems c06_lnd_adapter_* for every stream: paid only after SUCCEEDED, failed only after FAILED, no verdict while in flight; observed each run: the adapter sets no deadline of its own on the stream)",
     level_text="Machine-checked for the generated swap-out-sender and swap-in-receiver tables, every history, environment and crash point: once RebalancePayment has returned the preimage in a step that runs to completion with its store writes succeeding, the taker never sends coop_close (nor any other message) again, never leaves the claim zone {ClaimSwap, ClaimedPreimage} and every later effect is a store write in that zone or a preimage-spend attempt; every recovery in ClaimSwap attempts the preimage claim again. The full statement (also for payments whose outcome was not durably recorded, or that are still in flight when the call errs) is refuted in Coq and on the real code: known findings D3, D4; D2 is repaired.",
     level_note="Trusted: Coq kernel; hand-written Gallina model of swap/actions.go, swap/fsm.go (tied by step-level correspondence incl. crash steps: effect prefix + stored record); fakes for Lightning/wallet/watcher/store; the label 'HTLC still in flight' of a failed attempt is the environment's (the Lightning interface returns only an error). Legacy (protocol 6) recovery through RecoverClaimPayment is covered by the monitor only, not by the theorem.",
     assumptions=[
@@ -81,6 +81,17 @@ def run(ctx):
     res = vlib.eval_cases(d)
     ctx.rules.append("scenarios of one swap driven through the real SwapService (directed: every payment outcome x later timeout x claim-broadcast failure x crash at each effect around the payment followed by restart, both taker roles, btc/lbtc; then random walks with failure injection and restarts); failed attempts carry an environment label 'HTLC still in flight'; a scenario is non-trivial when it has more than one step")
     ctx.absorb(res, "fsm", signature=sig, describe=describe)
+    run_paystream(ctx)
+
+
+def run_paystream(ctx):
+    d = ctx.harness("paystream", outdir=ctx.work + "/paystream", args=["-n", 8 if ctx.quick else 60])
+    if d is None:
+        return
+    res = vlib.eval_cases(d)
+    ctx.rules.append("paystream family: the real lnd.Client.RebalancePayment over a fake lnrpc client and a fake router whose payment stream delivers scripted updates (unknown / in flight / succeeded / failed / stream error / closed / refused); model: first final update decides; monitor: paid only after SUCCEEDED, an error only after FAILED or a broken / closed stream, and the adapter puts no deadline of its own on the stream (with one it reports 'not paid' while the HTLC is in flight and the taker goes on to coop_close)")
+    ctx.absorb(res, "paystream", signature=lambda c: "paystream:error-while-htlc-in-flight",
+               describe=lambda c: "lnd RebalancePayment on updates %s: paid=%s after %s updates, own stream deadline=%s - the adapter can report 'not paid' while lnd still has the HTLC in flight (a peer that holds the HTLC past the deadline and then settles also receives coop_close with the taker's key)" % (c.get("script"), c.get("paid"), c.get("updates_consumed"), c.get("stream_has_own_deadline")))
 
 
 def search(ctx):
